@@ -22,6 +22,20 @@ CLAIMED = {
        "engine itself, options i/s/m/x, tokenize/replace, category tables are not modelled (correspondence only) - partial.",
   technique="Lean 4 proof (range algebra refinement, derivative matcher) + model/implementation correspondence",
   ref="4/C11"),
+ "C07": dict(
+  text="Lean 4 theorems, unbounded over all content specs and all child sequences: the executable judge derivMatch equals the declarative "
+       "regular language (deriv_iff); code-shaped models of SimpleContentModel, MixedContentModel, the selection logic "
+       "(makeContentModel/createChildModel, select_total) and DFAContentModel (followpos construction, subset construction with its "
+       "state table, table walk, termination) accept exactly that language (simple_iff, mixed_iff, dfa_iff, checkContent_iff), "
+       "non-deterministic models included. Tied to the code by running the real DTDValidator::checkContent on every child sequence of "
+       "length <=5 for every generated spec (verdict judged by the Spec; model also compared incl. model class and failing index), and by "
+       "a document tier: generated DTD+instance documents parsed validating/non-validating vs the executable Lean spec validDoc.",
+  note="PARTIAL at document level: attribute/ID/IDREF/REQUIRED/FIXED/enumeration/root/DTD-level VCs are checked by correspondence against "
+       "validDoc only (validate_iff_partial proves validDoc => declared + children in Lang + text rule); ENTITY/NOTATION types, standalone VCs, "
+       "external subset/PE VCs not modelled. No Gen tables: the tie is correspondence, not translation. Trusted: Lean kernel + "
+       "propext/Classical.choice/Quot.sound; XV.Spec.ContentModel and XV.Spec.DtdValid as transcribed; harness, generators and the Python XML renderer.",
+  technique="Lean 4 proof over code-shaped models + exhaustive model/implementation/Spec correspondence",
+  ref="4/C07"),
 }
 
 def main():
